@@ -4,6 +4,8 @@
 mod util;
 mod exec;
 mod c35;
+mod c15;
+mod c06;
 
 use std::io::{BufRead, Write};
 use std::path::PathBuf;
@@ -34,6 +36,8 @@ fn main() {
     let mut o = util::Out::new(&out);
     match sub.as_str() {
         "c35" => c35::gen(&mut o, &mut ex, seed, thorough),
+        "c15" => c15::gen(&mut o, &mut ex, seed, thorough),
+        "c06" => c06::gen(&mut o, &mut ex, seed, thorough),
         _ => { eprintln!("unknown subcommand {sub}"); std::process::exit(2); }
     }
     o.finish();
